@@ -550,9 +550,11 @@ pub fn gen_serial_server(out: &mut Out, rng: &mut Rng, n: usize) {
             };
             let unit = rng.unit();
             data.extend(frame("ser", 0, unit, &spec::request_bytes(&req).unwrap()));
-            svc.push(match rng.below(6) {
-                0 => Svc::Decline,
-                1 => Svc::Exception(tokio_modbus::ExceptionCode::new(1 + (q % 4) as u8)),
+            svc.push(match rng.below(12) {
+                0 | 1 => Svc::Decline,
+                2 | 3 => Svc::Exception(tokio_modbus::ExceptionCode::new(1 + (q % 4) as u8)),
+                // a reply beyond the PDU limit: the loop must end there, with an error
+                4 if q > 0 => Svc::Reply(Response::ReadHoldingRegisters(rng.words_in(126, 160))),
                 _ => Svc::Reply(answer_for(rng, &req)),
             });
         }
@@ -593,6 +595,7 @@ pub fn mon_c18(out: &mut Out, l: &str, r: &str) {
         // what this connection – and only this one – must see
         let mut expect_calls = vec![];
         let mut expect_out = vec![];
+        let mut refused = false;
         for (q, ((tid, unit), pdu)) in frames.iter().enumerate() {
             if let Verdict::Accept(req) = spec::classify_request(pdu) {
                 expect_calls.push(format!("{}:{}", hex8(*unit), request(&req)));
@@ -603,6 +606,7 @@ pub fn mon_c18(out: &mut Out, l: &str, r: &str) {
                     if b.is_empty() || b.len() > 253 {
                         // a response the encoder must refuse: this connection ends here – and only
                         // this one
+                        refused = true;
                         break;
                     }
                     expect_out.extend(frame(kind, *tid, *unit, &b))
@@ -614,10 +618,13 @@ pub fn mon_c18(out: &mut Out, l: &str, r: &str) {
                 _ => {}
             }
         }
+        // the serial server is its one connection: a reply that cannot be written ends it with
+        // that error, whichever entry point runs it
         let expect = format!(
-            "calls={} out={} peer=ok",
+            "calls={} out={} peer={}",
             if expect_calls.is_empty() { "-".to_string() } else { expect_calls.join(",") },
-            hex(&expect_out)
+            hex(&expect_out),
+            if refused && kind == "ser" { "failed" } else { "ok" }
         );
         let got = res.get(i).copied().unwrap_or("");
         out.check(got == expect, || format!("connection {i}: expected `{}` got `{}`", super::codec::trunc(&expect), super::codec::trunc(got)), l);
